@@ -6,18 +6,21 @@
      F0   0      a stored forbidden prompt (identical request: d = 0)
      F1   40     d(F0) = 0.16  closer than the firewall threshold, not a cache neighbour of F0
      T   -50     d(F0) = 0.25  exactly on the firewall threshold
-     A    1000   harmless; A ~ A1 ~ A2 are cache neighbours pairwise except A !~ A2
-     A1   1022
+     A    1000   harmless; A ~ A1 ~ A2 are cache neighbours pairwise except A !~ A2;
+                 A1 is strictly nearer to A than to A2 (an expired A shadows a fresh A2 for a request at A1)
+     A1   1020
      A2   1044
      B   -1000   harmless, far from everything
-   Knowledge-base chunks: d1 at 1008 (cited at A, A1), d2 at 1036 (cited at A1, A2), d3 at -1000 (cited at B). *)
+   Knowledge-base chunks: d1 at 1008 (cited at A, A1), d2 at 1034 (cited at A1, A2), d3 at -1000 (cited at B). *)
 EXTENDS Gateway
 
-c_Coord == ("F0" :> 0) @@ ("F1" :> 40) @@ ("T" :> -50) @@ ("A" :> 1000) @@ ("A1" :> 1022) @@ ("A2" :> 1044) @@ ("B" :> -1000)
-c_DocCoord == ("d1" :> 1008) @@ ("d2" :> 1036) @@ ("d3" :> -1000)
+c_Coord == ("F0" :> 0) @@ ("F1" :> 40) @@ ("T" :> -50) @@ ("A" :> 1000) @@ ("A1" :> 1020) @@ ("A2" :> 1044) @@ ("B" :> -1000)
+c_DocCoord == ("d1" :> 1008) @@ ("d2" :> 1034) @@ ("d3" :> -1000)
 \* ids as a text analyser sees them: "simple" ids are one word each, "path" ids share the directory word
 c_TokSimple == ("d1" :> {"doc_1"}) @@ ("d2" :> {"doc_2"}) @@ ("d3" :> {"doc_3"})
 c_TokPath   == ("d1" :> {"kb", "guide", "md_0"}) @@ ("d2" :> {"kb", "guide", "md_1"}) @@ ("d3" :> {"kb", "faq", "md_0"})
+\* "nested" ids doc_1 / doc_10 / xdoc_1: the id of d1 is a proper prefix of d2's and a proper suffix of d3's
+c_InsideNested == ("d1" :> {"d1", "d2", "d3"}) @@ ("d2" :> {"d2"}) @@ ("d3" :> {"d3"})
 c_ThrF == 2500
 c_ThrC == 1000
 c_RagR == 309
